@@ -104,14 +104,13 @@ theorem remove_absent_noop (s : TState) (p : Nat) (al : List (Nat × RL)) (h : h
 
 example : hasPod (addT TState.empty 7 [(0, [some 50])]) 7 = true := by decide
 
-/-! ### 2. used = Σ live allocations — step equations only (partial)
+/-! ### 2. used = Σ live allocations — step equations
 
-FULL STATEMENT (not yet proved in Lean; checked on the code by the oracle clause `C07:used-ne-sum-of-live`):
-  `used_eq_sum : ∀ ops, HistWF ops → ∀ m k, drVal (run empty ops).used m k = Σ_{(p, rec) ∈ (run empty ops).pods} drVal rec m k`
-  where `HistWF` = amounts ≥ 0, minors of one allocation distinct, every removal carries the recorded allocation.
-  Missing: the induction over histories (pods keys distinct, recorded amounts ≥ 0 ⇒ the clamp in `usedSub` is the identity).
-  Proved below: each accepted add raises `used` by exactly the supplied amounts, each accepted removal lowers it by
-  exactly the CALLER-SUPPLIED amounts, truncated at 0 (so a stale removal is where the sum can break). -/
+The FULL statement `used_eq_sum` (all histories satisfying the decidable predicate `histExact`: amounts ≥ 0, one entry
+per minor, every accepted removal carries the recorded allocation) is proved in the extension section below; these
+two step equations (kept under their original `_partial` names) hold for ANY caller-supplied allocation: each
+accepted add raises `used` by exactly the supplied amounts, each accepted removal lowers it by exactly the
+CALLER-SUPPLIED amounts, truncated at 0 (so a stale removal is where the sum can break). -/
 
 theorem used_step_add_partial (s : TState) (p : Nat) (al : List (Nat × RL)) (h : hasPod s p = false) (m k : Nat) :
     drVal (addT s p al).used m k = drVal s.used m k + alSum al m k := by
@@ -199,8 +198,8 @@ theorem sortCands_perm (free : DevRes) (pref : List Nat) : (sortCands free pref)
     `LessThanOrEqual` silently accepts the missing key — see `missing_dimension_counterexample`) -/
 def Covered (req f : RL) : Prop := ∀ k, (rlAt req k).isSome → (rlAt f k).isSome
 
-/-- **alloc_sound** (partial only in that the map-ness of `free`, `KeysNodup`, is a hypothesis here, not yet an
-    invariant proved over histories): a successful allocation returns between desired and maxDesired
+/-- **alloc_sound**, one-state form with the map-ness of `free` (`KeysNodup`) as a hypothesis; `keys_nodup` proves it
+    over all histories and `alloc_sound` below is the full statement: a successful allocation returns between desired and maxDesired
     DISTINCT minors, each permitted, each a non-zero device whose free amount covers the request. -/
 theorem alloc_sound_partial (s : TState) (a : AllocReq) (ms : List Nat) (hk : KeysNodup s.free)
     (h : allocate s a = some ms) :
@@ -282,7 +281,9 @@ theorem alSum_allocList (a : AllocReq) (ms : List Nat) (hn : ms.Nodup) (m k : Na
     · subst h; simp [hn.1]
     · simp [h, Ne.symm h]
 
-/-- **commit_no_overcommit**: committing the allocator's own result keeps `used ≤ total` wherever it held. -/
+/-- commit_no_overcommit, first form (every device of the type covers the request); superseded by
+    `commit_no_overcommit` / `no_overcommit` / `sched_no_overcommit` below, which need it only for the CHOSEN devices
+    and discharge `Inv1` / `KeysNodup` over histories. -/
 theorem commit_no_overcommit_partial (s : TState) (a : AllocReq) (ms : List Nat) (p : Nat)
     (hinv : Inv1 s) (hk : KeysNodup s.free) (h : allocate s a = some ms)
     (hreq : ∀ k, 0 ≤ rlVal a.req k)
@@ -570,6 +571,242 @@ theorem no_overcommit (ops : List Op) (hw : histWFB ops = true) (a : AllocReq) (
   rw [hs']
   exact commit_no_overcommit _ a ms p (run_inv1 ops _ inv1_empty (histWF_forall ops hw))
     (keys_nodup ops hw).2.1 h hreq hcov m k hle
+
+/-! ### informer events (updatePod / deletePod) -/
+
+/-- **used_eq_sum_events**: the same over histories of informer / scheduler EVENTS (updatePodOps / deletePodOps say
+    which ledger ops an event performs): whenever the performed ops are exact, used = Σ allocateSet. -/
+theorem used_eq_sum_events (evs : List Ev) (hx : histExact TState.empty (evs.flatMap evOps) = true) (m k : Nat) :
+    drVal (runEv TState.empty evs).used m k = podsSum (runEv TState.empty evs).pods m k :=
+  (used_eq_sum (evs.flatMap evOps) hx m k).1
+
+/-- a FAITHFUL update is exact: the old object is assigned and carries exactly what the cache recorded for the pod, the
+    new object is assigned, not terminated, and its annotation (if any) is well-formed — whatever the new annotation
+    says (other minor, other amounts, absent). -/
+theorem update_faithful_exact (s : TState) (p : Nat) (old new : PodObj) (al : List (Nat × RL)) (r : DevRes)
+    (hrec : podsGet s.pods p = some r)
+    (ho1 : old.assigned = true) (ho2 : old.alloc = some al) (ho3 : alOK al = true) (ho4 : recOf al = r)
+    (hn1 : new.assigned = true) (hn2 : new.terminated = false)
+    (hn3 : ∀ al', new.alloc = some al' → alOK al' = true) :
+    histExact s (updatePodOps p (some old) new) = true := by
+  simp only [updatePodOps, hn1, hn2, ho1, ho2, Bool.not_true, Bool.false_eq_true, if_false, if_true]
+  cases hna : new.alloc with
+  | none => simp [histExact, opExact, hrec, ho3, ho4]
+  | some al' => simp [histExact, opExact, hrec, ho3, ho4, hn3 al' hna]
+
+/-- … and afterwards the cache holds exactly the new object's allocation for the pod (or nothing). -/
+theorem update_faithful_result (s : TState) (p : Nat) (old new : PodObj) (al : List (Nat × RL))
+    (hp : hasPod s p = true)
+    (ho1 : old.assigned = true) (ho2 : old.alloc = some al)
+    (hn1 : new.assigned = true) (hn2 : new.terminated = false) :
+    podsGet (run s (updatePodOps p (some old) new)).pods p = new.alloc.map recOf := by
+  have hfilter : ∀ (l : List (Nat × DevRes)), podsGet (l.filter (fun e => e.1 != p)) p = none := by
+    intro l
+    induction l with
+    | nil => rfl
+    | cons e rest ih =>
+      obtain ⟨q, rr⟩ := e
+      by_cases hq : q = p
+      · subst hq; simpa [List.filter_cons] using ih
+      · have : (q != p) = true := by simp [hq]
+        simp [List.filter_cons, this, podsGet, hq, ih]
+  have happ : ∀ (l : List (Nat × DevRes)) (x : DevRes), podsGet l p = none → podsGet (l ++ [(p, x)]) p = some x := by
+    intro l x
+    induction l with
+    | nil => intro _; simp [podsGet]
+    | cons e rest ih =>
+      obtain ⟨q, rr⟩ := e
+      intro h
+      by_cases hq : q = p
+      · simp [podsGet, hq] at h
+      · simp only [podsGet, hq, if_false] at h
+        simp [podsGet, hq, ih h]
+  simp only [updatePodOps, hn1, hn2, ho1, ho2, Bool.not_true, Bool.false_eq_true, if_false, if_true]
+  have h1 : (removeT s p al).pods = s.pods.filter (fun e => e.1 != p) := by simp [removeT, hp, resetFree]
+  cases hna : new.alloc with
+  | none =>
+    simp only [List.append_nil, run, List.foldl, step, Option.map_none]
+    rw [h1]; exact hfilter _
+  | some al' =>
+    have hnp : hasPod (removeT s p al) p = false := by
+      rw [hasPod_iff_get, h1, hfilter]; rfl
+    simp only [List.singleton_append, run, List.foldl, step, Option.map_some]
+    simp only [addT, hnp, Bool.false_eq_true, if_false]
+    show podsGet ((removeT s p al).pods ++ [(p, recOf al')]) p = some (recOf al')
+    rw [h1]
+    exact happ _ _ (hfilter _)
+
+/-- the annotation changes in the very update that reports the pod terminated: updatePod calls deletePod(NEW object),
+    so the new annotation is subtracted while the old one was recorded (pod 1 holds 50 on device 0, the terminating
+    update says 20): nothing is live afterwards, 30 stay in use for ever.  The history is not exact. -/
+theorem terminated_update_counterexample :
+    let o : PodObj := { assigned := true, terminated := false, alloc := some [(0, [some 50])] }
+    let n : PodObj := { assigned := true, terminated := true, alloc := some [(0, [some 20])] }
+    let evs := [Ev.device [(0, [some 100])], Ev.podAdd 1 o, Ev.podUpdate 1 o n]
+    (runEv TState.empty evs).pods = [] ∧ drVal (runEv TState.empty evs).used 0 0 = 30 ∧
+      histExact TState.empty (evs.flatMap evOps) = false := by decide
+
+/-- Reserve records 50; the annotation that reaches the informer says 20 (edited by someone else): the add half is
+    dropped by the duplicate gate, the later delete subtracts 20: 30 leak. -/
+theorem dup_gate_then_delete_counterexample :
+    let n : PodObj := { assigned := true, terminated := false, alloc := some [(0, [some 20])] }
+    let evs := [Ev.device [(0, [some 100])], Ev.reserve 1 [(0, [some 50])],
+      Ev.podUpdate 1 { assigned := false, terminated := false, alloc := none } n, Ev.podDelete 1 n]
+    (runEv TState.empty evs).pods = [] ∧ drVal (runEv TState.empty evs).used 0 0 = 30 := by decide
+
+/-- the same (old → new) update delivered twice is NOT idempotent when the annotation changed: the second delivery
+    releases the old object's amounts from a pod that now holds the new ones (device 0: 50 → device 1: 50, twice:
+    device 1 ends with 100 in use for one live pod holding 50). -/
+theorem redelivered_update_counterexample :
+    let o : PodObj := { assigned := true, terminated := false, alloc := some [(0, [some 50])] }
+    let n : PodObj := { assigned := true, terminated := false, alloc := some [(1, [some 50])] }
+    let evs := [Ev.device [(0, [some 100]), (1, [some 100])], Ev.podAdd 1 o, Ev.podUpdate 1 o n, Ev.podUpdate 1 o n]
+    drVal (runEv TState.empty evs).used 1 0 = 100 ∧ podsSum (runEv TState.empty evs).pods 1 0 = 50 := by decide
+
+example :
+    let o : PodObj := { assigned := true, terminated := false, alloc := some [(0, [some 50])] }
+    let n : PodObj := { assigned := true, terminated := false, alloc := some [(1, [some 70])] }
+    let evs := [Ev.device [(0, [some 100]), (1, [some 100])], Ev.podAdd 1 o, Ev.podUpdate 1 o n]
+    histExact TState.empty (evs.flatMap evOps) = true ∧ drVal (runEv TState.empty evs).used 0 0 = 0 ∧
+      drVal (runEv TState.empty evs).used 1 0 = 70 := by decide
+
+/-! ### scheduler histories: `used ≤ total` is an invariant -/
+
+theorem alSum_mem_nodup (al : List (Nat × RL)) (hn : (al.map (·.1)).Nodup) (m : Nat) (r : RL) (hm : (m, r) ∈ al)
+    (k : Nat) : alSum al m k = rlVal r k := by
+  induction al with
+  | nil => simp at hm
+  | cons e rest ih =>
+    obtain ⟨m', v⟩ := e
+    simp only [List.map_cons, List.nodup_cons] at hn
+    simp only [alSum]
+    rcases List.mem_cons.mp hm with h | h
+    · injection h with h1 h2
+      subst h1; subst h2
+      rw [alSum_not_mem rest m k hn.1]; simp
+    · have hne : m' ≠ m := by
+        intro he; subst he
+        exact hn.1 (List.mem_map.mpr ⟨(m', r), h, rfl⟩)
+      simp [hne, ih hn.2 h]
+
+structure InvS (s : TState) : Prop where
+  inv1 : Inv1 s
+  le : ∀ m k, drVal s.used m k ≤ drVal s.total m k
+
+theorem step_preserves_invS (s : TState) (op : Op) (h : InvS s) (hop : schedOK s op = true) : InvS (step s op) := by
+  cases op with
+  | add p al =>
+    cases hp : hasPod s p with
+    | true => simpa [step, addT, hp] using h
+    | false =>
+      simp only [schedOK, hp, Bool.false_or, Bool.and_eq_true, List.all_eq_true] at hop
+      obtain ⟨hnd, hall⟩ := hop
+      have hn : (al.map (·.1)).Nodup := (nodupB_iff _).mp hnd
+      have hal : AlNonneg al := fun e he k => rlVal_nonneg_of e.2 (hall e he).1 k
+      refine ⟨step_preserves_inv1 s _ h.inv1 hal, ?_⟩
+      intro m k
+      simp only [step, addT, hp, Bool.false_eq_true, if_false]
+      show drVal (resetFree { s with used := usedAdd s.used al }).used m k ≤
+        drVal (resetFree { s with used := usedAdd s.used al }).total m k
+      rw [resetFree_total_val, resetFree_used]
+      show drVal (usedAdd s.used al) m k ≤ drVal s.total m k
+      rw [usedAdd_val]
+      have hle := h.le m k
+      by_cases hm : m ∈ al.map (·.1)
+      · obtain ⟨⟨m', r⟩, hmem, hm'⟩ := List.mem_map.mp hm
+        simp only at hm'
+        subst hm'
+        rw [alSum_mem_nodup al hn m' r hmem k]
+        have hc := (hall (m', r) hmem).2
+        have hr := rlVal_nonneg_of r (hall (m', r) hmem).1 k
+        simp only at hc
+        cases hf : drGet s.free m' with
+        | none => rw [hf] at hc; simp at hc
+        | some f =>
+          rw [hf] at hc
+          simp only [Bool.and_eq_true] at hc
+          have hfv : drVal s.free m' k = rlVal f k := by simp [drVal, drGetD, hf]
+          have hfe := h.inv1.free m' k
+          have hf0 : 0 ≤ rlVal f k := by rw [← hfv, hfe]; omega
+          rcases rlLeq_val r f k hc.1 (covered_of_B r f hc.2 k) hr hf0 with h1 | h1 <;> omega
+      · rw [alSum_not_mem al m k hm]; omega
+  | remove p al =>
+    have hal : AlNonneg al := alNonneg_of al hop
+    refine ⟨step_preserves_inv1 s _ h.inv1 hal, ?_⟩
+    intro m k
+    have h1 := remove_used_le s p al hal h.inv1.upos m k
+    have h2 : drVal (removeT s p al).total m k = drVal s.total m k := by
+      simp only [removeT]
+      split
+      · rfl
+      · show drVal (resetFree { s with used := usedSub s.used al }).total m k = _
+        rw [resetFree_total_val]
+    simp only [step]
+    have := h.le m k
+    omega
+  | refresh nt =>
+    simp only [schedOK, Bool.and_eq_true, List.all_eq_true, List.mem_range, decide_eq_true_eq] at hop
+    obtain ⟨hinv, hu⟩ := hop
+    have hnt : DRNonneg nt := by
+      simp only [invOK, Bool.and_eq_true] at hinv
+      exact fun m k => drVal_nonneg_of nt hinv.1 m k
+    refine ⟨step_preserves_inv1 s _ h.inv1 hnt, ?_⟩
+    intro m k
+    simp only [step]
+    rw [refresh_no_overcommit_iff]
+    cases hg : drGet s.used m with
+    | none => rw [drVal_none s.used m k hg]; exact hnt m k
+    | some v =>
+      have hmem := drGet_mem s.used m v hg
+      have hv : drVal s.used m k = rlVal v k := by simp [drVal, drGetD, hg]
+      rw [hv]
+      by_cases hk : k < v.length
+      · exact hu (m, v) hmem k hk
+      · rw [show rlVal v k = 0 by simp [rlVal, rlAt_none_of_ge v k (by omega), qVal]]
+        exact hnt m k
+
+theorem run_invS (ops : List Op) : ∀ (s : TState), InvS s → histSched s ops = true → InvS (run s ops) := by
+  induction ops with
+  | nil => intro s h _; exact h
+  | cons op rest ih =>
+    intro s h hw
+    simp only [histSched, Bool.and_eq_true] at hw
+    simp only [run, List.foldl]
+    exact ih _ (step_preserves_invS s op h hw.1) hw.2
+
+/-- **sched_no_overcommit**: over every history made of allocator-consistent commits, arbitrary (non-negative)
+    removals, duplicate / unmatched events and inventory refreshes that stay at or above what is in use
+    (`histSched`, decidable), NO device is ever over-committed in any dimension. -/
+theorem sched_no_overcommit (ops : List Op) (h : histSched TState.empty ops = true) (m k : Nat) :
+    drVal (run TState.empty ops).used m k ≤ drVal (run TState.empty ops).total m k :=
+  (run_invS ops _ ⟨inv1_empty, by intro m k; simp [TState.empty, drVal, drGetD, drGet, rlVal_nil]⟩ h).le m k
+
+/-- the allocator's own answer is an allocator-consistent commit (so Reserve after a successful allocation on the
+    current ledger satisfies `schedOK`), given the request is non-negative and the chosen devices expose its keys -/
+theorem allocate_commit_schedOK (s : TState) (a : AllocReq) (ms : List Nat) (p : Nat) (hk : KeysNodup s.free)
+    (h : allocate s a = some ms) (hreq : rlNonneg a.req = true) (hcov : chosenCovered s a ms = true) :
+    schedOK s (Op.add p (allocList a ms)) = true := by
+  obtain ⟨_, _, hnd, hall⟩ := alloc_sound_partial s a ms hk h
+  simp only [schedOK, Bool.or_eq_true, Bool.and_eq_true, List.all_eq_true]
+  right
+  refine ⟨?_, ?_⟩
+  · rw [nodupB_iff]
+    simpa [allocList, List.map_map, Function.comp_def] using hnd
+  · intro e he
+    simp only [allocList, List.mem_map] at he
+    obtain ⟨m, hm, rfl⟩ := he
+    obtain ⟨_, f, hf, _, hleq, _⟩ := hall m hm
+    simp only [chosenCovered, List.all_eq_true] at hcov
+    have hc := hcov m hm
+    rw [hf] at hc
+    simp [hreq, hf, hleq, hc]
+
+example : histSched TState.empty
+    [Op.refresh [(0, [some 100]), (1, [some 100])], Op.add 1 [(0, [some 60])], Op.add 2 [(0, [some 40]), (1, [some 40])],
+     Op.remove 1 [(0, [some 60])], Op.refresh [(0, [some 50]), (1, [some 40])]] = true := by decide
+
+example : histSched TState.empty
+    [Op.refresh [(0, [some 100])], Op.add 1 [(0, [some 60])], Op.add 2 [(0, [some 60])]] = false := by decide
 
 /-! ### the quirk behind `Covered` -/
 
